@@ -613,6 +613,9 @@ def execute(sched, scratch, seed=None, i=None):
             if (step.get('fault') or {}).get('kind') == 'stdout-broken':
                 plan['stdout_fault'] = {'after_effect': step['fault'].get('after_effect', -1), 'stream': step['fault'].get('stream', 'stdout')}
                 plan['fault'] = None
+            if (step.get('fault') or {}).get('kind') == 'listdir':
+                plan['listdir'] = {step['fault']['path']: {'kind': 'oserror', 'errno': step['fault'].get('errno', 'EACCES')}}
+                plan['fault'] = None
             argv = [a.replace('<ROOT>', os.path.realpath(root)) for a in step['argv']]
             r = proc.run_cli(root, argv, plan, cwd=step['cwd'], ctl_parent=ctlp)
             post = util.snapshot(root)
@@ -651,14 +654,28 @@ def execute(sched, scratch, seed=None, i=None):
             if step['kind'] == 'init' and sched.get('sweep_init') and not step.get('fault') and r.effects:
                 # init under faults: every effect of the run just seen fails once (errno by kind) and the process dies once there,
                 # from the same starting tree; `keeps each of them (settings may only gain appended lines)` has no fair-weather clause
-                for k_, e_ in enumerate(r.effects):
-                    en = {'open': 'EACCES', 'write': 'ENOSPC', 'close': 'EIO', 'rename': 'EACCES', 'mkdir': 'ENOSPC'}.get(e_['k'], 'EIO')
-                    for fault in ({'kind': 'oserror', 'at': k_, 'errno': en, 'cut': 'half'}, {'kind': 'crash', 'at': k_, 'cut': 'half'},
-                                  {'kind': 'oserror-from', 'at': k_, 'errno': 'ENOSPC'}, {'kind': 'stdout-broken', 'after_effect': k_, 'stream': 'stdout'}):
+                # ... and what the run *looked at* fails too: every directory it listed cannot be listed (searchable but not
+                # readable, a network folder that hiccups) - a program that takes "I could not look" for "nothing there" overwrites
+                listed = []
+                for e_ in r.events:
+                    if e_.get('k') == 'listdir' and e_['path'] not in listed:
+                        listed.append(e_['path'])
+                sweep = [(k_, f_) for k_, e_ in enumerate(r.effects) for f_ in (
+                    {'kind': 'oserror', 'at': k_, 'cut': 'half',
+                     'errno': {'open': 'EACCES', 'write': 'ENOSPC', 'close': 'EIO', 'rename': 'EACCES', 'mkdir': 'ENOSPC'}.get(e_['k'], 'EIO')},
+                    {'kind': 'crash', 'at': k_, 'cut': 'half'}, {'kind': 'oserror-from', 'at': k_, 'errno': 'ENOSPC'},
+                    {'kind': 'stdout-broken', 'after_effect': k_, 'stream': 'stdout'})]
+                sweep += [(k_, {'kind': 'short-write', 'at': k_}) for k_, e_ in enumerate(r.effects)
+                          if e_['k'] == 'write' and e_.get('via') == 'os.write' and e_.get('size', 0) > 1]
+                sweep += [(-1, {'kind': 'listdir', 'path': d_, 'errno': en_}) for d_ in listed for en_ in ('EACCES', 'EIO')]
+                if True:
+                    for k_, fault in sweep:
                         util.restore(root, pre)
                         p2 = dict(plan, fault=fault, tty=dict(step['tty'], answers=list(step['tty'].get('answers') or [])))
                         if fault['kind'] == 'stdout-broken':
                             p2.update(fault=None, stdout_fault={'after_effect': k_, 'stream': 'stdout'})
+                        if fault['kind'] == 'listdir':
+                            p2.update(fault=None, listdir={fault['path']: {'kind': 'oserror', 'errno': fault['errno']}})
                         r2 = proc.run_cli(root, argv, p2, cwd=step['cwd'], ctl_parent=ctlp)
                         post2 = util.snapshot(root)
                         bad2 = util.audit(pre, post2, r2.events)
